@@ -26,20 +26,32 @@ from vlib.core import enc_list, enc_listlist, dec_list
 TOL = 1e-9          # DESIGN section 8: float64 paths, |x - y| <= TOL * (1 + |y|)
 FD_TOL = 1e-5       # central finite differences (failing-input search / consistency oracle only)
 
-RULE = ('Convolution.forward on exhaustive digraphs n<=2 (loops), n=3 (all 64 loop-free quick; with loops thorough), '
-        'structured random weighted graphs n<=10, rectangular biadjacencies x normalisation {left,right,both,none} x '
-        'self_embeddings x activation {identity,relu,sigmoid,softmax, via loss} x bias x adjacency format '
-        '{csr, unsorted csr, csr with duplicates, csc, dense} x features {dense, csr} x 1..4 output channels, each also '
-        'under a random renumbering; activation outputs/gradients and loss values/gradients on random signals '
-        '(zeros and ties included) x 1..5 channels x label vectors; predictions on outputs with ties; neighbour '
-        'sampler on random CSR (explicit zeros) x sample sizes; GNNClassifier fits (conv/sage, 1-2 layers, CE/BCE, '
-        '1..3 channels, dense/sparse features, dict/array labels) checked through forward, labels_, predict_proba '
-        'and a second fit with the same random_state. Non-trivial = the graph has an edge and the answer is not an '
-        'error; distinct = distinct (entry, inputs, options)')
+RULE = ('Convolution.forward on all digraphs n<=2 (loops) and n=3 (loop-free: all 64 in both tiers; with loops: sampled quick, '
+        'all thorough), structured random weighted graphs n<=10, rectangular biadjacencies; per graph the 32 triples '
+        '(normalisation {left,right,both,none} x self_embeddings x activation) are enumerated for n<=2 (and for n=3 in the '
+        'thorough tier) and 6 of them sampled otherwise, and for each triple ONE adjacency container (csr, unsorted csr, csr with '
+        'duplicates, csc, coo, lil, bool/int dtype, dense, and the refused csr_array / np.matrix / dok), one feature container '
+        '(dense, csr, csc, coo, lil, int), bias, 1..4 channels and the construction path (Convolution, get_layer, sage, loss as '
+        'activation) are SAMPLED, not crossed; every square case again under a random renumbering; activation outputs/gradients '
+        'and loss values/gradients on random signals (zeros, ties, large values, labels out of range, too many / one label) x 1..5 '
+        'channels; predictions on outputs with ties and with no channel; neighbour sampler on random CSR (explicit zeros, '
+        'unsorted) handed over as csr/csc/coo/lil/dense/duplicates x sample sizes, draws recorded from np.random.choice; '
+        'GNNClassifier fits (conv/sage/mixed per-layer lists, 1-2 layers, CE/BCE, 1..3 channels, every adjacency and feature '
+        'container, dict/array labels, validation 0/0.3/0.5, early stopping, n_epochs 0..6, normalizations incl. None, Adam/GD) '
+        'checked through the adjacencies the fit itself used (_sample_nodes recorded), forward, labels_, predict_proba, a '
+        'second fit with the same random_state and a refit with reinit=True; layer / loss / normalisation name tables. '
+        'Non-trivial = the graph has an edge and the answer is not an error; distinct = distinct (entry, inputs, options)')
 ASSUMPTIONS = ['numpy / scipy products, special.expit and special.softmax are the substrate (monitored through the outputs)',
-               'np.random.choice(size, k, replace=False) returns k distinct positions below size (contract line per call)',
+               'np.random.choice(size, k, replace=False) returns k distinct positions below size (contract line per call, on the recorded draws)',
                'floating-point rounding: model and implementation are compared within 1e-9*(1+|x|), never bitwise',
-               'np.random.seed(random_state) makes numpy\'s global generator deterministic (seed determinism itself is C16)']
+               'readings of the property text taken from the code and pinned by theorems, not by an outside definition: all three '
+               'normalisations divide by the ROW sums (right: A D^-1 with D = diag(A 1), column-stochastic only for symmetric A); the '
+               'self-embedding is added after normalising (N(A) + I, not N(A + I)); a node of weight 0 gets the pseudo-inverse 0; '
+               "normalisation 'both' is specified for non-negative row weights (the code returns NaN rows otherwise, not generated)",
+               'the sampler works on the stored non-zero entries (repaired) and gives every kept entry weight 1 (weights are not kept)',
+               'container independence is observed (every container through the real code against the model on the denotation the '
+               'harness computes), the Lean theorems about containers are facts about that denotation',
+               'seed determinism (second fit, reinit refit) is observed only; the theorem is C16\'s']
 
 
 # ----------------------------------------------------------------------------------------------
@@ -236,8 +248,7 @@ def forward_cases(ctx, a_csr, X, W, b, norm, se, act, afmt='csr', xfmt='dense', 
             'bias': None if b is None else [float(v) for v in b], 'normalization': norm, 'self_embeddings': bool(se),
             'activation': act, 'adjacency_format': afmt, 'features_format': xfmt, 'via': via}
     kind = container_token(A_in)
-    sig = {'entry': 'Convolution.forward', 'adjacency': afmt, 'features': xfmt, 'normalization': eff_norm,
-           'activation': eff_act}
+    sig = {'entry': 'Convolution.forward', 'adjacency': afmt, 'normalization': eff_norm}
 
     def f():
         layer = make_layer(norm, se, act, c, W, b, via)
@@ -676,6 +687,11 @@ def classifier_cases(ctx, a_csr, X, labels, cfg):
                 out.append(Case(('sampled', li, ip, ix, dt, enc_rows(rows)), dict(sig, check='sampled-adjacency'), None, 'holds',
                                 'c19.spec_sample_set %d %s %s %s %d %s' % (n, ip, ix, dt, layer.sample_size, enc_rows(rows)),
                                 True, desc))
+        else:
+            # a convolution layer works on the graph itself (`_sample_nodes` leaves its adjacency alone)
+            same = call(lambda: np.array_equal(sparse.csr_matrix(adj).toarray().astype(float), ref.toarray()))
+            if same is not True:
+                ctx.spec_fail(dict(sig, check='conv-layer-adjacency'), desc, {'layer': li, 'adjacency_used': str(same)})
     # 1. forward through all layers with the fitted parameters and the adjacencies the fit used
     toks = ' '.join(layer_tokens(l, a) for l, a in zip(g.layers, adjs))
     key = ('gnn', toks, enc_any(X_in))
